@@ -696,6 +696,16 @@ class Executor:
             self.cond.notify()
         return fut
 
+    def map(self, fn, *iterables, timeout=None, chunksize=1):
+        """Like concurrent.futures.Executor.map: all calls are submitted at once, results come back in order."""
+        futs = [self.submit(fn, *args) for args in zip(*iterables)]
+
+        def results():
+            for f in futs:
+                yield f.result(timeout)
+
+        return results()
+
     def shutdown(self, wait=True, **kw):
         with self.cond:
             self.shut = True
